@@ -11,6 +11,8 @@ import (
 	"sort"
 	"strings"
 
+	gatewaynet "github.com/kubewharf/kubegateway/pkg/gateway/net"
+
 	"verifharness/rig"
 )
 
@@ -78,7 +80,23 @@ func (g *gen) add(key string, inst int) Macro {
 	return g.ev(Ev{E: "add", Key: rig.Hex(key), Inst: inst})
 }
 
+// host: a Host header. Mostly bare names; sometimes with a port, upper case, or in a form SplitHostPort rejects.
 func (g *gen) host() string {
+	h := g.bareHost()
+	switch x := g.r.Intn(100); {
+	case x < 12:
+		return h + ":6443"
+	case x < 14:
+		return h + ":"
+	case x < 15:
+		return "[" + h + "]:443"
+	case x < 16:
+		return h + ":1:2" // too many colons: used as it is
+	}
+	return h
+}
+
+func (g *gen) bareHost() string {
 	x := g.r.Intn(100)
 	switch {
 	case x < 42:
@@ -197,7 +215,7 @@ func (g *gen) mid(depth int, enclosing map[string]bool, own string) []Macro {
 			// the request's own host changes hands while the request is being processed
 			g.feat["own-host-moves"] = true
 			live := g.liveInsts()
-			ops = append(ops, g.add(own, live[g.r.Intn(len(live))]))
+			ops = append(ops, g.add(gatewaynet.HostWithoutPort(own), live[g.r.Intn(len(live))]))
 		case x < 60:
 			ops = append(ops, g.managerEvent(depth+1)...)
 		case x < 62 && g.short:
@@ -217,7 +235,7 @@ func (g *gen) request(depth int, enclosing map[string]bool) []Macro {
 	if len(g.prev) > 0 && g.r.Intn(100) < 30 {
 		// the same request again (cache hits, and the same credentials after the host changed hands)
 		m = g.prev[g.r.Intn(len(g.prev))]
-		if m.Op == "tok" && enclosing[rig.UnHex(m.Host)+"\x00"+rig.UnHex(m.Tok)] {
+		if m.Op == "tok" && enclosing[flightKey(rig.UnHex(m.Host), rig.UnHex(m.Tok))] {
 			return nil
 		}
 		ops := []Macro{m}
@@ -233,15 +251,15 @@ func (g *gen) request(depth int, enclosing map[string]bool) []Macro {
 	}()
 	if g.r.Intn(2) == 0 {
 		host, tok := g.host(), g.pick(g.toks)
-		for tries := 0; enclosing[host+"\x00"+tok] && tries < 20; tries++ {
+		for tries := 0; enclosing[flightKey(host, tok)] && tries < 20; tries++ {
 			host, tok = g.host(), g.pick(g.toks)
 		}
-		if enclosing[host+"\x00"+tok] {
+		if enclosing[flightKey(host, tok)] {
 			return nil // would join the enclosing request's single flight and wait for itself
 		}
 		m = Macro{Op: "tok", Host: rig.Hex(host), Tok: rig.Hex(tok)}
 		if g.r.Intn(100) < 16 {
-			enc := map[string]bool{host + "\x00" + tok: true}
+			enc := map[string]bool{flightKey(host, tok): true}
 			for k := range enclosing {
 				enc[k] = true
 			}
@@ -267,6 +285,10 @@ func (g *gen) request(depth int, enclosing map[string]bool) []Macro {
 	}
 	return ops
 }
+
+// flightKey: requests with the same Hostname and token share one lookup of the token cache (singleflight); a
+// nested request with the key of a request that encloses it would wait for itself.
+func flightKey(hostport, tok string) string { return gatewaynet.HostWithoutPort(hostport) + "\x00" + tok }
 
 func hexAll(l ...string) []string {
 	var r []string
